@@ -8,7 +8,8 @@ LEVEL = "proof"
 RULE = ("genuine four-element Ledger chains over fresh secp256k1 keys (root -> device -> attestation -> "
         "ui/signer, tweaked leaves) and every single-point corruption of each: bit flips in every message / "
         "signature / tweak, swapped signatures, signature by a foreign key, wrong root, re-parenting, tweak "
-        "removed / added, high-S signature, every target subset; non-trivial = every certificate; distinct "
+        "removed / added, high-S signature, every target subset, every bit of the DER framing of a signature, "
+        "and each of these again on an object already validated against another root; non-trivial = every certificate; distinct "
         "by document text")
 EXPLANATION = ("Theorems C06_* prove over the Gallina chain walk (validate_target) with the signature check as "
                "an abstract oracle that a target is valid iff every link on its root path holds, that the first "
@@ -61,10 +62,18 @@ def run(ctx):
     for i in range(n):
         doc, keys = certs.v1_chain(rng)
         variants = [("genuine", doc, keys["root"].pub())] + certs.v1_corruptions(rng, doc, keys)
-        for label, d, root_pub in variants:
+        if i < (2 if ctx["tier"] == "quick" else 30):
+            variants += certs.der_header_flips(doc, keys, i % 4)
+        # history: the same certificate object validated first against another root (the genuine one
+        # for the wrong-root variant, a foreign one otherwise) must give the same verdicts
+        foreign = certs.K1Key(rng).pub()
+        hist = [(lb + "@after-other-root", d, rp, (keys["root"].pub() if lb == "wrong-root" else foreign))
+                for lb, d, rp in variants if not lb.startswith("derflip")]
+        for label, d, root_pub, *prior in [v + () for v in variants] + hist:
             truth = certs.v1_link_truth(d, root_pub)
-            obs = certs.impl_load_validate(d, lambda: HSMCertificateRoot(root_pub.hex()), tmp,
-                                           with_resave=False)
+            obs = certs.impl_load_validate(
+                d, lambda: HSMCertificateRoot(root_pub.hex()), tmp, with_resave=False,
+                prior_root_factory=(lambda: HSMCertificateRoot(prior[0].hex())) if prior else None)
             res["evaluations"] += 1
             res["distinct"] += 1
             kind = label.split("-")[0]
